@@ -1,9 +1,12 @@
-import AcraModel.Keystore.Calls
+import AcraModel.Keystore.CallsImport
+import AcraModel.Keystore.RotateTool
 import Driver.C06
-/-! Driver ops for C08: a history, one write operation under a fault, reopen, follow-ups.
+/-! Driver ops for C08: a history, one write operation under a fault, operations on the same handle
+(when the process survives), reopen, follow-ups.
 
-`C08.v1 <cache> <mode> <k> H <op>… O <op> F <op>…` (and `C08.v2m`/`C08.v2d` without `<cache>`)
-→ `<calls>;<outcome>;<follow-up observations>` (see harness/internal/c08/c08.go). -/
+`C08.v1 <cache> <mode> <k> H <op>… O <op> [S <op>…] F <op>…` (and `C08.v2m`/`C08.v2d` without `<cache>`)
+→ `<calls>;<outcome>[;<same-handle observations>];<follow-up observations>` (see harness/internal/c08/c08.go).
+`C08.rot <v1|v2> <mode> <k> <n>` → `<outcome>;<files>;<offered>` (harness/internal/c08/rotate.go). -/
 namespace Driver.C08
 open AcraModel AcraModel.Keystore Driver.C06
 
@@ -37,25 +40,74 @@ def parseMode : String → Option FaultMode
   | "none" => some .none | "err" => some .err | "cb" => some .cb | "ca" => some .ca | "torn" => some .torn
   | _ => none
 
+/-- the write operation under test -/
+inductive WOp
+  | api (op : Op)
+  | imp (overwrite : Bool) (items : List (Slot × Bool))
+  | mig (slots : List Slot)
+  | hop (s : Slot) (h : HOp)
+
+def parseItem (t : String) : Option (Slot × Bool) :=
+  if t.endsWith ".pub" then (parseSlot (t.dropRight 4)).map (·, true) else (parseSlot t).map (·, false)
+
+def parseHop (t : String) : Option HOp :=
+  if t = "A" then some .add
+  else if t.startsWith "C" then (t.drop 1).toNat?.map .setCurrent
+  else if t.startsWith "D" then (t.drop 1).toNat?.map .destroy
+  else none
+
+def parseWOp (t : String) : Option WOp :=
+  match parseOp t with
+  | some op => some (.api op)
+  | none =>
+    match t.splitOn ":" with
+    | ["i", items] => ((items.splitOn "+").mapM parseItem).map (.imp false)
+    | ["io", items] => ((items.splitOn "+").mapM parseItem).map (.imp true)
+    | ["m", items] => ((items.splitOn "+").mapM parseSlot).map .mig
+    | ["h", s, h] => do let s ← parseSlot s; let h ← parseHop h; pure (.hop s h)
+    | _ => none
+
+def WOp.slots : WOp → List Slot
+  | .api op => (match op with
+      | .gen s | .cur s | .pub s | .all s | .dcur s | .drot s _ => [s]
+      | _ => [])
+  | .imp _ items => items.map (·.1)
+  | .mig slots => slots
+  | .hop s _ => [s]
+
 structure Scenario where
   hist : List Op
-  op : Op
+  op : WOp
+  /-- raw tokens: API ops, or handle ops when `op` is a handle op; `none` = no S section -/
+  same : Option (List String)
   follow : List Op
 
 def parseSections (toks : List String) : Option Scenario := do
   let (h, rest) := (toks.drop 1).span (· ≠ "O")
   guard (toks.head? = some "H")
   match rest with
-  | "O" :: o :: "F" :: f => do
+  | "O" :: o :: rest2 => do
     let hist ← h.mapM parseOp
-    let op ← parseOp o
-    let follow ← f.mapM parseOp
-    pure ⟨hist, op, follow⟩
+    let op ← parseWOp o
+    let (same, rest3) : Option (List String) × List String := match rest2 with
+      | "S" :: r => let (s, r') := r.span (· ≠ "F"); (some s, r')
+      | r => (none, r)
+    match rest3 with
+    | "F" :: f => do
+      let follow ← f.mapM parseOp
+      pure ⟨hist, op, same, follow⟩
+    | _ => none
   | _ => none
 
 def opSlot : Op → Option Slot
   | .gen s | .cur s | .pub s | .all s | .dcur s | .drot s _ => some s
   | _ => none
+
+def Scenario.slots (sc : Scenario) : List Slot :=
+  let sameSlots := match sc.same, sc.op with
+    | some toks, .api _ => (toks.filterMap parseOp).filterMap opSlot
+    | _, _ => []
+  (sc.hist.filterMap opSlot ++ sc.op.slots ++ sameSlots ++ sc.follow.filterMap opSlot).eraseDups
 
 /-- side effect of the harness's snapshot reads on a v2 store: reading a poison kind opens its ring
 read-write, which creates a missing ring -/
@@ -64,6 +116,102 @@ def snapshotV2 (st : V2) (slots : List Slot) : V2 :=
     | .pp | .ps => match st.openRW s with | some (st', _) => st' | none => st
     | _ => st) st
 
+/-- the harness's snapshot reads THROUGH THE HANDLE UNDER TEST (v1: they go through its cache) -/
+def snapshotOps (slots : List Slot) : List Op :=
+  slots.flatMap fun s => [Op.cur s] ++ (if s.kind == .sp then [Op.pub s] else []) ++ (if s.kind.hasAll then [Op.all s] else [])
+
+def renderObsList (first : Nat) (obs : List Obs) : String :=
+  if obs.isEmpty then "-" else "|".intercalate (obs.map (renderObs first))
+
+def assemble (calls : String) (out : Outcome) (same : Option String) (follow : String) : String :=
+  calls ++ ";" ++ renderOutcome out ++ (match same with | some s => ";" ++ s | none => "") ++ ";" ++ follow
+
+/-- the faulted call was an unlock that "failed": it was not performed, the handle keeps the store's lock -/
+def unlockFailed (mode : FaultMode) (k : Nat) (trace : List BCall) : Bool :=
+  mode == .err && (trace[k]? == some .unlock || trace[k]? == some .runlock)
+
+def handleV1 (c : Int) (mode : FaultMode) (k : Nat) (sc : Scenario) : Option String :=
+  let first := Generated.KeyNames.v1FirstListedIndex
+  let (st, _) := (V1.init c).run sc.hist
+  let slots := sc.slots
+  match sc.op with
+  | .api op =>
+    -- with same-handle follow-ups the harness first reads everything through the handle under test
+    let st := if sc.same.isSome then (st.run (snapshotOps slots)).1 else st
+    let (st1, trace, out) := st.stepF ⟨mode, k⟩ op
+    let calls := joinOr "," (trace.map (renderCall st.fs))
+    let died := out == .crash
+    let (st2, same) : V1 × Option String := match sc.same with
+      | none => (st1, none)
+      | some toks =>
+        if died then (st1, some "-") else
+        match toks.mapM parseOp with
+        | none => (st1, some "?")
+        | some ops =>
+          let (sa, _) := st1.run (snapshotOps slots)
+          let (sb, obs) := sa.run ops
+          let (sc', _) := sb.run (snapshotOps slots)
+          (sc', some (renderObsList first obs))
+    let (_, obs) := st2.clear.run sc.follow
+    some (assemble calls out same (renderObsList first obs))
+  | .imp _ items =>
+    let (st1, trace, cleaned, out) := st.importF ⟨mode, k⟩ (items.map fun (s, p) => ⟨s, p⟩)
+    let calls := trace.map (renderCall st.fs) ++ (match cleaned with | some f => ["Remove:tmp(" ++ fileTokOf f ++ ")"] | none => [])
+    let (_, obs) := st1.clear.run sc.follow
+    some (assemble (joinOr "," calls) out none (renderObsList first obs))
+  | _ => none
+
+def handleV2 (mode : FaultMode) (k : Nat) (sc : Scenario) : Option String :=
+  let first := Generated.KeyNames.v2FirstListedIndex
+  let slots := sc.slots
+  let (st, _) := V2.init.run sc.hist
+  let st := snapshotV2 st slots
+  let ft : Fault := ⟨mode, k⟩
+  let finish (st1 : V2) (trace : List BCall) (out : Outcome) (same : Option String) : Option String :=
+    let st1 := snapshotV2 st1 slots
+    let (_, obs) := st1.run sc.follow
+    some (assemble (joinOr "," (trace.map renderBCall)) out same (renderObsList first obs))
+  match sc.op with
+  | .api op =>
+    let (st1, trace, out) := st.stepF ft op
+    let died := out == .crash || unlockFailed mode k trace
+    match sc.same with
+    | none => finish st1 trace out none
+    | some toks =>
+      if died then finish st1 trace out (some "-") else
+      match toks.mapM parseOp with
+      | none => none
+      | some ops =>
+        let (st2, obs) := (snapshotV2 st1 slots).run ops
+        finish st2 trace out (some (renderObsList first obs))
+  | .imp ow items =>
+    let (st1, trace, out) := st.importF ft ow (items.map (·.1))
+    finish st1 trace out none
+  | .mig ss =>
+    let (st1, trace, out) := V2.migrateF ft st 0 false ss
+    finish st1 trace out none
+  | .hop s h =>
+    match H2.open st s with
+    | none => none
+    | some h0 =>
+      let (h1, out) := h0.hop ft s h
+      let trace := h1.x.trace.reverse
+      let died := out == .crash || unlockFailed mode k trace
+      match sc.same with
+      | none => finish h1.x.st trace out none
+      | some toks =>
+        if died then finish h1.x.st trace out (some "-") else
+        match toks.mapM parseHop with
+        | none => none
+        | some hops =>
+          -- the single fault of the scenario belongs to the first handle operation
+          let (h2, outs) := H2.hops ft s { h1 with x := { h1.x with fired := true } } hops
+          finish h2.x.st trace out (some (if outs.isEmpty then "-" else "|".intercalate (outs.map renderOutcome)))
+
+def renderFiles (st : Rotate.RSt) (n : Nat) : String :=
+  String.join ((List.range n).map fun i => match st.files 0 i with
+    | some 0 => "o" | some _ => "n" | none => "x")
+
 def handle (op : String) (args : List String) : Option String :=
   match op, args with
   | "v1", c :: m :: k :: rest => do
@@ -71,23 +219,18 @@ def handle (op : String) (args : List String) : Option String :=
       let mode ← parseMode m
       let k ← k.toNat?
       let sc ← parseSections rest
-      let (st, _) := (V1.init c).run sc.hist
-      let (st1, trace, out) := st.stepF ⟨mode, k⟩ sc.op
-      let (_, obs) := st1.clear.run sc.follow
-      pure (joinOr "," (trace.map (renderCall st.fs)) ++ ";" ++ renderOutcome out ++ ";" ++
-        (if obs.isEmpty then "-" else "|".intercalate (obs.map (renderObs Generated.KeyNames.v1FirstListedIndex))))
+      handleV1 c mode k sc
   | "v2m", m :: k :: rest | "v2d", m :: k :: rest => do
       let mode ← parseMode m
       let k ← k.toNat?
       let sc ← parseSections rest
-      let slots := ((sc.hist ++ [sc.op] ++ sc.follow).filterMap opSlot).eraseDups
-      let (st, _) := V2.init.run sc.hist
-      let st := snapshotV2 st slots
-      let (st1, trace, out) := st.stepF ⟨mode, k⟩ sc.op
-      let st1 := snapshotV2 st1 slots
-      let (_, obs) := st1.run sc.follow
-      pure (joinOr "," (trace.map renderBCall) ++ ";" ++ renderOutcome out ++ ";" ++
-        (if obs.isEmpty then "-" else "|".intercalate (obs.map (renderObs Generated.KeyNames.v2FirstListedIndex))))
+      handleV2 mode k sc
+  | "rot", [_, m, k, n] => do
+      let mode ← parseMode m
+      let k ← k.toNat?
+      let n ← n.toNat?
+      let (st, out) := Rotate.exec Rotate.codeVariant ⟨mode, k⟩ 0 Rotate.RSt.init (Rotate.codeEvents [(0, n)])
+      pure (renderOutcome out ++ ";" ++ renderFiles st n ++ ";" ++ ".".intercalate ((st.offered 0).map toString))
   | _, _ => none
 
 end Driver.C08
